@@ -86,12 +86,16 @@ func (_this *recordTypeBuilder) BuildFromBigDecimalFloat(ctx *Context, value *ap
 	return dst
 }
 func (_this *recordTypeBuilder) BuildFromUID(ctx *Context, value []byte, dst reflect.Value) reflect.Value {
+	// The key is replayed later (once per record), so volatile event data must be copied
+	value = append([]byte(nil), value...)
 	ctx.AddRecordTypeKey(func(c *Context, builder Builder) {
 		builder.BuildFromUID(c, value, unusedValue)
 	})
 	return dst
 }
 func (_this *recordTypeBuilder) BuildFromArray(ctx *Context, arrayType events.ArrayType, value []byte, dst reflect.Value) reflect.Value {
+	// The key is replayed later (once per record), so volatile event data must be copied
+	value = append([]byte(nil), value...)
 	ctx.AddRecordTypeKey(func(c *Context, builder Builder) {
 		builder.BuildFromArray(c, arrayType, value, unusedValue)
 	})
